@@ -33,6 +33,13 @@ def family(tier: str) -> list:
         RefGrammar({"<start>": Alt((Seq((Lit("a"), NT("<start>"))), Lit("abc")))}),
         RefGrammar({"<start>": Seq((Rep(Lit("ab"), 2, 2), Opt(Lit("abc"))))}),
         RefGrammar({"<start>": Seq((Rx("a*b"), Rx("b*c")))}),
+        # regexes whose partial matches are not prefix-closed: a cut can fall where the text so far is only
+        # a partial match although a shorter prefix was a complete one
+        RefGrammar({"<start>": Seq((Rx("(ab)+"), Lit("c")))}),
+        RefGrammar({"<start>": Seq((Rx("a(bc)?"), Opt(Lit("b"))))}),
+        RefGrammar({"<start>": Seq((Rx("[ab]+(c[ab]+)?"), Lit("c")))}),
+        RefGrammar({"<start>": Star(Seq((Rx("a(ba)*"), Lit("c"))))}),
+        RefGrammar({"<start>": Alt((Rx("ab(ab)?c"), Seq((Rx("ab"), Lit("b")))))}),
     ]
     gs += extra
     out = []
@@ -47,13 +54,35 @@ def family(tier: str) -> list:
             continue
         out.append((g, [0x00, 0x01, 0x61, 0xA5], 3 if tier == "quick" else 4))
     extra_bin = [
+        # text literals / text regexes read from bytes input, with cuts inside them
+        RefGrammar({"<start>": Seq((Lit("abc"), Lit(b"\x01"), Opt(Lit("ab"))))}, binary=True),
+        RefGrammar({"<start>": Seq((Lit(b"\x01"), Alt((Lit("ab"), Lit("abc"))), Lit(b"\x00")))}, binary=True),
+        RefGrammar({"<start>": Plus(Alt((Lit("ab"), Lit(b"\x01\x00"))))}, binary=True),
         RefGrammar({"<start>": Seq((Lit(b"\x01\x00"), Rx("[\\x00\\x01]+", True), Lit(b"\xa5")))}, binary=True),
         RefGrammar({"<start>": Seq((Rep(NT("<bit>"), 16, 16), Opt(Lit(b"\x01\x00")))), "<bit>": Alt((Bit(0), Bit(1)))}, binary=True),
         RefGrammar({"<start>": Alt((Lit(b"\x01\x00"), Lit(b"\x01\x00\xa5")))}, binary=True),
     ]
     for g in extra_bin:
-        out.append((g, [0x00, 0x01, 0xA5], 4 if tier == "quick" else 5))
+        alpha = [0x00, 0x01, 0x61, 0x62, 0x63] if any(isinstance(v, str) for v in _lits(g)) else [0x00, 0x01, 0xA5]
+        out.append((g, alpha, 4 if tier == "quick" else 5))
     return out
+
+
+def _lits(g):
+    acc = []
+
+    def walk(n):
+        if isinstance(n, Lit):
+            acc.append(n.v)
+        elif isinstance(n, (Seq, Alt)):
+            for x in n.items:
+                walk(x)
+        elif isinstance(n, (Opt, Star, Plus, Rep)):
+            walk(n.x)
+
+    for b in g.rules.values():
+        walk(b)
+    return acc
 
 
 def compositions(w):
